@@ -128,8 +128,12 @@ def run_case(case, ctx):
         coef = eps / (2 * sens)
         blog = None if base is None else np.log(base)
         ref = ref_probs(q, coef, blog, mp)
-        M.exponential_mechanism(q.copy(), eps, sens, base_measure=None if base is None else blog.copy())
+        held = q.copy()   # one float64 array object handed in twice: the second selection must be calibrated like the first
+        held_base = None if base is None else blog.copy()
+        M.exponential_mechanism(held, eps, sens, base_measure=held_base)
         judge_p(ctx, 'em_probabilities', 'Mechanism.exponential_mechanism(array)', rec.choices[-1][1], ref, smax(coef, q))
+        M.exponential_mechanism(held, eps, sens, base_measure=held_base)
+        judge_p(ctx, 'em_probabilities', 'Mechanism.exponential_mechanism(array), second call with the same array object', rec.choices[-1][1], ref, smax(coef, q))
         if base is None:
             M.exponential_mechanism(list(q), eps, sens)
             judge_p(ctx, 'em_probabilities', 'Mechanism.exponential_mechanism(list)', rec.choices[-1][1], ref, smax(coef, q))
@@ -194,8 +198,12 @@ def run_case(case, ctx):
             rec = Rec()
             coef = (1.0 if mono else 0.5) * eps / sens
             ref = ref_probs(q, coef, None, mp)
-            fn(q.copy(), eps, sens, prng=rec, monotonic=mono)
+            held = q.copy()
+            fn(held, eps, sens, prng=rec, monotonic=mono)
             judge_p(ctx, 'em_probabilities', '%s.exponential_mechanism(monotonic=%s)' % (name, mono), rec.choices[-1][1], ref, smax(coef, q))
+            fn(held, eps, sens, prng=rec, monotonic=mono)
+            judge_p(ctx, 'em_probabilities', '%s.exponential_mechanism(monotonic=%s), second call with the same array object' % (name, mono),
+                    rec.choices[-1][1], ref, smax(coef, q))
             fn(q + shift, eps, sens, prng=rec, monotonic=mono)
             judge_p(ctx, 'shift_invariance', '%s.exponential_mechanism(q%+g, monotonic=%s)' % (name, shift, mono),
                     rec.choices[-1][1], ref, smax(coef, q + shift))
